@@ -122,8 +122,276 @@ theorem has_iff_get (f : Field) (c : Val) :
   | panic s => rfl
   | fuel => rfl
 
+/-! ### whole paths: a write is read back through the same path
+
+`pathSet` descends through existing containers, builds the missing ones bottom-up (`buildChain`) and puts every updated
+child back where it was found.  For every path (names and indices, any length), every node and every value: when the
+write succeeds, reading the same path in the result yields exactly the value written. -/
+
+theorem fieldGet_fieldSet_same (o : Opts) (f : Field) (node v t : Val) (h : fieldSet o f node v = .ok t) :
+    fieldGet tcPlain f t = .ok (some v) := by
+  cases node with
+  | sub d a hd ha =>
+    cases f with
+    | named n =>
+      simp only [fieldSet, Outcome.ok.injEq] at h
+      subst h
+      simp [fieldGet, tcPlain, Val.dict, dget_dset_same]
+    | idx i =>
+      simp only [fieldSet] at h
+      by_cases hg : Extracted.guard_idxSet_reject i o.maxIdx = true
+      · simp [hg, Outcome.raise] at h
+      · simp only [hg, Bool.false_eq_true, if_false] at h
+        by_cases hneg : i < 0
+        · simp [hneg] at h
+        · simp only [hneg, if_false] at h
+          by_cases hh : i ≥ hugeAlloc
+          · simp [hh] at h
+          · simp only [hh, if_false, Outcome.ok.injEq] at h
+            subst h
+            have hlen : i.toNat < (asetNat a i.toNat v).length := by
+              have := asetNat_get_same a i.toNat v
+              exact (List.getElem?_eq_some_iff.mp this).1
+            have hm : Extracted.guard_idxGet_missing i ((asetNat a i.toNat v).length : Int) = false := by
+              simp only [Extracted.guard_idxGet_missing, Bool.or_eq_false_iff, decide_eq_false_iff_not]
+              constructor <;> omega
+            simp only [fieldGet, tcPlain, Val.arr, hm, Bool.false_eq_true, if_false, hneg, asetNat_get_same]
+  | prim p => simp [fieldSet, Outcome.raise] at h
+  | dyn i e => simp [fieldSet, Outcome.raise] at h
+
+theorem pathGet_cons (f : Field) (rest : List Field) (hr : rest ≠ []) (cur c : Val)
+    (h : fieldGet tcPlain f cur = .ok (some c)) : pathGet tcPlain (f :: rest) cur = pathGet tcPlain rest c := by
+  cases rest with
+  | nil => exact absurd rfl hr
+  | cons g r => simp [pathGet, h]
+
+theorem pathGet_single (f : Field) (cur v : Val) (h : fieldGet tcPlain f cur = .ok (some v)) :
+    pathGet tcPlain [f] cur = .ok (some v) := by
+  simp [pathGet, h]
+
+/-- the containers built for the missing part of a path lead to the value -/
+theorem buildChain_get (o : Opts) : ∀ (p : List Field) (v t : Val), p ≠ [] → buildChain o p v = .ok t →
+    pathGet tcPlain p t = .ok (some v)
+  | [], _, _, hp, _ => absurd rfl hp
+  | [f], v, t, _, h => by
+    simp only [buildChain, Outcome.bind_ok] at h
+    exact pathGet_single f t v (fieldGet_fieldSet_same o f Val.empty v t h)
+  | f :: g :: r, v, t, _, h => by
+    simp only [buildChain] at h
+    cases hi : buildChain o (g :: r) v with
+    | ok inner =>
+      have hi' := hi
+      simp only [buildChain] at hi'
+      rw [hi'] at h
+      simp only [Outcome.bind_ok] at h
+      rw [pathGet_cons f (g :: r) (by simp) t inner (fieldGet_fieldSet_same o f Val.empty inner t h)]
+      exact buildChain_get o (g :: r) v inner (by simp) hi
+    | err e => simp only [buildChain] at hi; rw [hi] at h; simp at h
+    | panic s => simp only [buildChain] at hi; rw [hi] at h; simp at h
+    | fuel => simp only [buildChain] at hi; rw [hi] at h; simp at h
+
+theorem fieldGet_putChild_same (f : Field) (node c c' t : Val)
+    (hg : fieldGet tcPlain f node = .ok (some c)) (hnode : node.isSub = true) (hp : putChild node f c' = .ok t) :
+    fieldGet tcPlain f t = .ok (some c') := by
+  cases node with
+  | sub d a hd ha =>
+    cases f with
+    | named n =>
+      simp only [putChild, Outcome.ok.injEq] at hp
+      subst hp
+      simp [fieldGet, tcPlain, Val.dict, dget_dset_same]
+    | idx i =>
+      simp only [putChild, Outcome.ok.injEq] at hp
+      subst hp
+      -- the child was found at index i: the index is inside the list
+      simp only [fieldGet, tcPlain, Val.arr] at hg
+      by_cases hm : Extracted.guard_idxGet_missing i (a.length : Int) = true
+      · simp [hm, Outcome.raise] at hg
+      · simp only [hm, Bool.false_eq_true, if_false] at hg
+        by_cases hneg : i < 0
+        · simp [hneg] at hg
+        · simp only [hneg, if_false] at hg
+          have hlt : i.toNat < a.length := by
+            cases hq : a[i.toNat]? with
+            | none => rw [hq] at hg; simp at hg
+            | some x => exact (List.getElem?_eq_some_iff.mp hq).1
+          have hm' : Extracted.guard_idxGet_missing i ((a.set i.toNat c').length : Int) = false := by
+            simp only [List.length_set]
+            simpa using hm
+          simp only [fieldGet, tcPlain, Val.arr, hm', Bool.false_eq_true, if_false, hneg]
+          simp [List.getElem?_set_self hlt]
+  | prim p => simp [Val.isSub] at hnode
+  | dyn i e => simp [Val.isSub] at hnode
+
+/-- **read-your-writes for whole paths**: whatever the path (names and indices, any length), the node and the value, a write
+that succeeds is read back through the same path -/
+theorem pathGet_pathSet_same (o : Opts) : ∀ (p : List Field) (node v t : Val),
+    pathSet tcPlain o p node v = .ok t → pathGet tcPlain p t = .ok (some v)
+  | [], node, v, t, h => by simp [pathSet] at h
+  | [f], node, v, t, h => by
+    simp only [pathSet] at h
+    exact pathGet_single f t v (fieldGet_fieldSet_same o f node v t h)
+  | f :: g :: r, node, v, t, h => by
+    -- the branch that builds the missing containers
+    have build : (do
+        let inner ← buildChain o (g :: r) v
+        fieldSet o f node inner) = .ok t → pathGet tcPlain (f :: g :: r) t = .ok (some v) := by
+      intro hb
+      cases hi : buildChain o (g :: r) v with
+      | ok inner =>
+        rw [hi] at hb
+        simp only [Outcome.bind_ok] at hb
+        rw [pathGet_cons f (g :: r) (by simp) t inner (fieldGet_fieldSet_same o f node inner t hb)]
+        exact buildChain_get o (g :: r) v inner (by simp) hi
+      | err e => rw [hi] at hb; simp at hb
+      | panic s => rw [hi] at hb; simp at hb
+      | fuel => rw [hi] at hb; simp at hb
+    simp only [pathSet] at h
+    cases hg : fieldGet tcPlain f node with
+    | err e =>
+      rw [hg] at h
+      simp only at h
+      by_cases hm : e.reason = Reason.missing
+      · simp only [hm, if_true] at h; exact build h
+      · simp [hm] at h
+    | panic s => rw [hg] at h; simp at h
+    | fuel => rw [hg] at h; simp at h
+    | ok co =>
+      rw [hg] at h
+      cases co with
+      | none => simp only at h; exact build h
+      | some c =>
+        simp only at h
+        by_cases hn : c.isNilPrim = true
+        · simp only [hn, if_true] at h; exact build h
+        · simp only [hn, Bool.false_eq_true, if_false] at h
+          cases hc : pathSet tcPlain o (g :: r) c v with
+          | ok c' =>
+            rw [hc] at h
+            simp only [Outcome.bind_ok] at h
+            have hsub : node.isSub = true := by
+              cases node with
+              | sub d a hd ha => rfl
+              | prim p => cases f <;> simp [putChild, Outcome.raise] at h
+              | dyn i e => cases f <;> simp [putChild, Outcome.raise] at h
+            rw [pathGet_cons f (g :: r) (by simp) t c' (fieldGet_putChild_same f node c c' t hg hsub h)]
+            exact pathGet_pathSet_same o (g :: r) c v c' hc
+          | err e => rw [hc] at h; simp at h
+          | panic s => rw [hc] at h; simp at h
+          | fuel => rw [hc] at h; simp at h
+
+/-- ... hence Has answers true for a path that has just been written -/
+theorem pathHas_of_get : ∀ (p : List Field) (t v : Val), pathGet tcPlain p t = .ok (some v) → p ≠ [] →
+    pathHas tcPlain p t = .ok true
+  | [], _, _, _, hp => absurd rfl hp
+  | [f], t, v, h, _ => by
+    simp only [pathGet] at h
+    cases hf : fieldGet tcPlain f t with
+    | ok vo =>
+      rw [hf] at h
+      simp only [Outcome.ok.injEq] at h
+      subst h
+      simp [pathHas, hf]
+    | err e => rw [hf] at h; simp [Outcome.raise] at h
+    | panic s => rw [hf] at h; simp at h
+    | fuel => rw [hf] at h; simp at h
+  | f :: g :: r, t, v, h, _ => by
+    simp only [pathGet] at h
+    cases hf : fieldGet tcPlain f t with
+    | ok vo =>
+      rw [hf] at h
+      cases vo with
+      | none => simp [Outcome.raise] at h
+      | some n =>
+        simp only at h
+        simp only [pathHas, hf]
+        exact pathHas_of_get (g :: r) n v h (by simp)
+    | err e => rw [hf] at h; simp at h
+    | panic s => rw [hf] at h; simp at h
+    | fuel => rw [hf] at h; simp at h
+
+theorem pathHas_pathSet_same (o : Opts) (p : List Field) (node v t : Val) (hp : p ≠ [])
+    (h : pathSet tcPlain o p node v = .ok t) : pathHas tcPlain p t = .ok true :=
+  pathHas_of_get p t v (pathGet_pathSet_same o p node v t h) hp
+
+
+/-- a write below the name `n` changes, at the node it starts from, the entry `n` and nothing else: every other name and
+every list element of that node is found as before -/
+theorem pathSet_named_frame (o : Opts) (n : String) (p : List Field) (d : Dict) (a : List Val) (hd ha : Bool) (v t : Val)
+    (h : pathSet tcPlain o (.named n :: p) (.sub d a hd ha) v = .ok t) :
+    (∀ n', n ≠ n' → fieldGet tcPlain (.named n') t = fieldGet tcPlain (.named n') (.sub d a hd ha)) ∧
+    (∀ j, fieldGet tcPlain (.idx j) t = fieldGet tcPlain (.idx j) (.sub d a hd ha)) := by
+  -- in every branch the result is the node with `dset d n _`
+  have shape : ∃ x hd', t = .sub (dset d n x) a hd' ha := by
+    cases p with
+    | nil =>
+      simp only [pathSet, fieldSet, Outcome.ok.injEq] at h
+      exact ⟨v, true, h.symm⟩
+    | cons g r =>
+      have build : (do
+          let inner ← buildChain o (g :: r) v
+          fieldSet o (.named n) (.sub d a hd ha) inner) = .ok t → ∃ x hd', t = .sub (dset d n x) a hd' ha := by
+        intro hb
+        cases hi : buildChain o (g :: r) v with
+        | ok inner =>
+          rw [hi] at hb
+          simp only [Outcome.bind_ok, fieldSet, Outcome.ok.injEq] at hb
+          exact ⟨inner, true, hb.symm⟩
+        | err e => rw [hi] at hb; simp at hb
+        | panic s => rw [hi] at hb; simp at hb
+        | fuel => rw [hi] at hb; simp at hb
+      simp only [pathSet] at h
+      cases hg : fieldGet tcPlain (.named n) (.sub d a hd ha) with
+      | err e =>
+        rw [hg] at h
+        simp only at h
+        by_cases hm : e.reason = Reason.missing
+        · simp only [hm, if_true] at h; exact build h
+        · simp [hm] at h
+      | panic s => rw [hg] at h; simp at h
+      | fuel => rw [hg] at h; simp at h
+      | ok co =>
+        rw [hg] at h
+        cases co with
+        | none => simp only at h; exact build h
+        | some c =>
+          simp only at h
+          by_cases hn : c.isNilPrim = true
+          · simp only [hn, if_true] at h; exact build h
+          · simp only [hn, Bool.false_eq_true, if_false] at h
+            cases hc : pathSet tcPlain o (g :: r) c v with
+            | ok c' =>
+              rw [hc] at h
+              simp only [Outcome.bind_ok, putChild, Outcome.ok.injEq] at h
+              exact ⟨c', hd, h.symm⟩
+            | err e => rw [hc] at h; simp at h
+            | panic s => rw [hc] at h; simp at h
+            | fuel => rw [hc] at h; simp at h
+  obtain ⟨x, hd', rfl⟩ := shape
+  constructor
+  · intro n' hne
+    simp [fieldGet, tcPlain, Val.dict, dget_dset_other _ _ _ _ hne]
+  · intro j
+    rfl
+
+/-- ... so a read through any path that starts with another name, or with an index, returns what it returned before -/
+theorem pathGet_after_set_elsewhere (o : Opts) (n : String) (p : List Field) (d : Dict) (a : List Val) (hd ha : Bool)
+    (v t : Val) (h : pathSet tcPlain o (.named n :: p) (.sub d a hd ha) v = .ok t) (f' : Field) (q : List Field)
+    (hf : ∀ n', f' = .named n' → n ≠ n') :
+    pathGet tcPlain (f' :: q) t = pathGet tcPlain (f' :: q) (.sub d a hd ha) := by
+  obtain ⟨h1, h2⟩ := pathSet_named_frame o n p d a hd ha v t h
+  have hfg : fieldGet tcPlain f' t = fieldGet tcPlain f' (.sub d a hd ha) := by
+    cases f' with
+    | named n' => exact h1 n' (hf n' rfl)
+    | idx j => exact h2 j
+  cases q with
+  | nil => simp only [pathGet, hfg]
+  | cons g r => simp only [pathGet, hfg]
+
+
 /-! non-vacuity -/
 example : (fieldSet {} (.named "a") Val.empty (.prim (.int 1))).isOk = true := by decide
 example : (adel [Val.nilV, Val.nilV] 0).2 = true := by decide
+example : (pathSet tcPlain {} [.named "a", .idx 2, .named "b"] Val.empty (.prim (.int 7))).isOk = true := by decide
 
 end Ucfg.C12
